@@ -8,8 +8,11 @@ import (
 	"encoding/json"
 	"fmt"
 	"strings"
+	"time"
 
 	"github.com/brutella/hc/accessory"
+	"github.com/brutella/hc/characteristic"
+	"github.com/brutella/hc/service"
 )
 
 func c10Entries(c *Ctx) {
@@ -108,5 +111,188 @@ func c10Entries(c *Ctx) {
 				}
 			}
 		}()
+	}
+}
+
+// c10Churn: "…connection close and reconnect … every order in which connections were established": subscribers leave and
+// join WHILE values change. Every controller that was subscribed during a whole burst of changes receives each value of the
+// burst exactly once and in order — whoever else went away in the meantime.
+func c10Churn(c *Ctx) {
+	id := "churn#0"
+	if c.Skip(id) {
+		return
+	}
+	r := c.CaseRng("churn", 0)
+	acc0 := accessory.New(accessory.Info{Name: "Churn"}, accessory.TypeOther)
+	svc := service.New("F0AB")
+	cnt := characteristic.NewInt("F5AB")
+	cnt.Format = characteristic.FormatInt32
+	cnt.Perms = []string{characteristic.PermRead, characteristic.PermEvents}
+	cnt.SetValue(0)
+	svc.AddCharacteristic(cnt.Characteristic)
+	acc0.AddService(svc)
+	acc, err := startE2E(c.ScratchDir(), "00102003", false, acc0)
+	if err != nil {
+		c.Violate("transport does not start", id, nil, "started", err.Error())
+		return
+	}
+	defer acc.Stop()
+	ident := newRefIdentity(r, "ctrl-churn")
+	setup, _ := acc.Dial()
+	sr := refPairSetup(r, setup.Post(), "001-02-003", ident)
+	setup.Close()
+	if sr.ErrAt != "" {
+		c.Violate("reference controller cannot pair", id, nil, "paired", sr.ErrAt)
+		return
+	}
+	sub := fmt.Sprintf(`{"characteristics":[{"aid":%d,"iid":%d,"ev":true}]}`, acc0.ID, cnt.ID)
+	join := func() *refClient {
+		cl, err := acc.Dial()
+		if err != nil {
+			return nil
+		}
+		vr := refPairVerify(r, cl.Post(), ident, sr.AccLTPK)
+		if vr.Shared == nil {
+			cl.Close()
+			return nil
+		}
+		cl.Upgrade(vr.Shared)
+		if m, err := cl.Do("PUT", "/characteristics", "application/hap+json", []byte(sub)); err != nil || m.Status != 204 {
+			cl.Close()
+			return nil
+		}
+		return cl
+	}
+	var subs []*refClient
+	for k := 0; k < 6; k++ {
+		if cl := join(); cl != nil {
+			subs = append(subs, cl)
+		}
+	}
+	defer func() {
+		for _, s := range subs {
+			s.Close()
+		}
+	}()
+	value := 0
+	rounds := c.Pick(30, 300)
+	for round := 0; round < rounds && len(subs) >= 3; round++ {
+		// one of the subscribers (never the one that connected last) goes away at some moment of the burst
+		leave := r.Intn(len(subs) - 1)
+		leaver := subs[leave]
+		stay := append(append([]*refClient{}, subs[:leave]...), subs[leave+1:]...)
+		var burst []int
+		gone := make(chan struct{})
+		go func(d time.Duration) {
+			time.Sleep(d)
+			leaver.Close()
+			close(gone)
+		}(time.Duration(r.Intn(400)) * time.Microsecond)
+		for k := 0; k < 12; k++ {
+			value++
+			burst = append(burst, value)
+			cnt.SetValue(value)
+			time.Sleep(time.Duration(r.Intn(60)) * time.Microsecond)
+		}
+		<-gone
+		for n, s := range stay {
+			for k := 0; k < 2; k++ { // fence
+				if _, err := s.Do("GET", fmt.Sprintf("/characteristics?id=%d.%d", acc0.ID, cnt.ID), "", nil); err != nil {
+					c.Violate("request on an open connection fails", id, round, "fence response", err.Error())
+					return
+				}
+			}
+			var got []int
+			for _, e := range s.Events {
+				var b struct {
+					Characteristics []struct {
+						Value float64 `json:"value"`
+					} `json:"characteristics"`
+				}
+				if json.Unmarshal(e.Body, &b) == nil && len(b.Characteristics) == 1 {
+					got = append(got, int(b.Characteristics[0].Value))
+				}
+			}
+			s.Events = nil
+			if fmt.Sprint(got) != fmt.Sprint(burst) {
+				c.Violate("a subscribed controller does not receive each change exactly once while another subscriber disconnects", id,
+					map[string]interface{}{"round": round, "subscribers": len(subs), "the_one_that_left_was_number": leave + 1, "this_one_is_number_of_those_that_stayed": n + 1, "changes_in_the_burst": len(burst)},
+					fmt.Sprint(burst), fmt.Sprint(got))
+				return
+			}
+		}
+		subs = stay
+		if cl := join(); cl != nil {
+			subs = append(subs, cl)
+		}
+		c.Count(fmt.Sprint(id, round), true, "stream:churn")
+	}
+}
+
+// c10SecondTransport: the application stops its transport and creates a new one over the SAME accessory objects (the network
+// changed, the configuration was reloaded) without restarting the process. Subscribers of the new transport are notified
+// exactly once per change, like those of the first.
+func c10SecondTransport(c *Ctx) {
+	id := "second-transport#0"
+	if c.Skip(id) {
+		return
+	}
+	r := c.CaseRng("second-transport", 0)
+	sw := accessory.NewSwitch(accessory.Info{Name: "Again"})
+	dir := c.ScratchDir()
+	ident := newRefIdentity(r, "ctrl-again")
+	var ltpk []byte
+	for run := 1; run <= 2; run++ {
+		acc, err := startE2E(dir, "00102003", false, sw.Accessory)
+		if err != nil {
+			c.Violate("transport does not start", id, run, "started", err.Error())
+			return
+		}
+		ok := func() bool {
+			defer acc.Stop()
+			if run == 1 {
+				setup, _ := acc.Dial()
+				sr := refPairSetup(r, setup.Post(), "001-02-003", ident)
+				setup.Close()
+				if sr.ErrAt != "" {
+					c.Violate("reference controller cannot pair", id, nil, "paired", sr.ErrAt)
+					return false
+				}
+				ltpk = sr.AccLTPK
+			}
+			cl, err := acc.Dial()
+			if err != nil {
+				return false
+			}
+			defer cl.Close()
+			vr := refPairVerify(r, cl.Post(), ident, ltpk)
+			if vr.Shared == nil {
+				c.Violate("paired reference controller cannot verify", id, run, "verified", vr.ErrAt)
+				return false
+			}
+			cl.Upgrade(vr.Shared)
+			sub := fmt.Sprintf(`{"characteristics":[{"aid":%d,"iid":%d,"ev":true}]}`, sw.Accessory.ID, sw.Switch.On.ID)
+			if m, err := cl.Do("PUT", "/characteristics", "application/hap+json", []byte(sub)); err != nil || m.Status != 204 {
+				c.Violate("verified reference controller cannot subscribe", id, run, "204", fmt.Sprint(err, m))
+				return false
+			}
+			for k := 0; k < 4; k++ {
+				sw.Switch.On.SetValue(!sw.Switch.On.GetValue())
+				for f := 0; f < 2; f++ {
+					cl.Do("GET", fmt.Sprintf("/characteristics?id=%d.%d", sw.Accessory.ID, sw.Switch.On.ID), "", nil)
+				}
+				if n := len(cl.Events); n != 1 {
+					c.Violate("subscribed verified connection did not receive exactly one EVENT for a change", id,
+						map[string]interface{}{"transport": fmt.Sprintf("number %d over the same accessory objects in this process", run), "change": k + 1}, "1 event", fmt.Sprint(n))
+					return false
+				}
+				cl.Events = nil
+			}
+			c.Count(fmt.Sprint(id, run), true, "stream:second-transport")
+			return true
+		}()
+		if !ok {
+			return
+		}
 	}
 }
